@@ -20,10 +20,10 @@ META = {
         "the worker marks every dequeued item done exactly once on every path, exceptional ones included (imported from "
         "C09.2: otherwise join(timeout) is False forever and stop() never returns); C11.6 (imported from C09.5) stop() joins a snapshot "
         "of the thread list taken under the pool lock and waits for every member until it is not alive (joining the live list "
-        "lets a worker that unregisters itself hide the next one)."),
+        "lets a worker that unregisters itself hide the next one), every started worker is registered in that list, and (C09.6) a new pool is in the stopped state and start() clears the flag before it creates workers."),
     "does_not_decide": "termination of stop() under all interleavings; behaviour of the timeouts themselves.",
     "rules": {"C11.1": "dominance over the `return True` exits", "C11.2": "normalised branch condition + provenance of the returned value",
-              "C11.3": "ordering by dominance + lockset", "C11.4": "imported C10.7 / C10.7b + store scan", "C11.5": "imported C09.2", "C11.6": "imported C09.5"},
+              "C11.3": "ordering by dominance + lockset", "C11.4": "imported C10.7 / C10.7b + store scan", "C11.5": "imported C09.2", "C11.6": "imported C09.5, C09.6"},
     "assumptions": ["queue.Queue.join returns when unfinished_tasks reaches 0; task_done notifies all_tasks_done at 0 (audited from the stdlib source in the thorough tier)"],
 }
 
@@ -143,7 +143,7 @@ def check(ck):
     # ---- C11.4 / C11.5 / C11.6: shared clauses ---------------------------------------------------------------
     from rules import c09, c10
     common.import_rules(ck, c10, {"C10.7": "C11.4", "C10.7b": "C11.4"})
-    common.import_rules(ck, c09, {"C09.2": "C11.5", "C09.5": "C11.6"})
+    common.import_rules(ck, c09, {"C09.2": "C11.5", "C09.5": "C11.6", "C09.6": "C11.6"})
     ck.floor("C11.6", 3)
     ck.floor("C11.4", 6)
     ck.floor("C11.5", 3)
